@@ -213,7 +213,14 @@ func Run(r *core.Run) {
 			for _, h := range []string{"typ", "cty", "crit", "jku", "x5u", "b64"} {
 				h := h
 				mut("extra-header-"+h, v, func(m M) { resign(m, k, []byte(fmt.Sprintf(`{"alg":"ES256",%q:"v"}`, h)), func(M) {}) })
+				// ... with values of the other JSON types: a member that is present is present, whatever its value
+				for vi, hv := range []string{`null`, `""`, `0`, `false`, `[]`, `{}`} {
+					hv := hv
+					mut(fmt.Sprintf("extra-header-%s-value-%d", h, vi), v, func(m M) { resign(m, k, []byte(fmt.Sprintf(`{"alg":"ES256",%q:%s}`, h, hv)), func(M) {}) })
+				}
 			}
+			mut("extra-header-unregistered-null", v, func(m M) { resign(m, k, []byte(`{"alg":"ES256","other":null}`), func(M) {}) })
+			mut("kid-header-null", v, func(m M) { resign(m, k, []byte(`{"alg":"ES256","kid":null}`), func(M) {}) })
 			keyName := "recoveryKey"
 			if typ == "update" {
 				keyName = "updateKey"
